@@ -41,6 +41,8 @@ for n in sorted(os.listdir(os.path.join(HERE, "seeded"))):
         continue
     mp = os.path.join(HERE, "seeded", n, "meta.json")
     meta = json.load(open(mp)) if os.path.exists(mp) else {}
+    if meta.get("stale_after"):
+        continue
     if n.split("-")[1].startswith("N") or meta.get("kind_override") == "neutral":
         names.append(n)
 bad = 0
